@@ -6,6 +6,7 @@ with deletions, whose sort fields have a column in all / none / only some of the
 """
 import datetime
 import itertools
+import random
 
 LEVEL = "exploration"
 RULE = ("case = (corpus of 3..45 documents with missing values in every key field; 1..4 unmerged segments; deletions; column layout "
@@ -160,10 +161,18 @@ class Case(object):
         elif r < 0.35:
             self.deletes = rng.sample(ids, rng.randint(0, len(ids) - 1))
         self.split = rng.randint(1, self.nseg - 1) if self.nseg > 1 else 1   # where the schema changes (late/early)
+        # final layout step (own stream: keeps the earlier case stream unchanged): the segments - with their deletions - are
+        # rewritten by an optimize or by the default merge policy. Only for uniform column layouts: merging a segment written
+        # without a column into one with the column gives those documents the column default (a format limitation)
+        r2 = random.Random("c14-after:%r" % rng.random()).random()
+        self.after = None
+        if self.colmode in ("all", "none"):
+            self.after = "optimize" if r2 < 0.2 else ("merge" if r2 < 0.35 else None)
 
     def layout(self):
         return {"colmode": self.colmode, "segments": [len(s) for s in self.segments], "deletes": len(self.deletes),
-                "kvector": self.kvector, "sparse": self.sparse, "schema_change_after_segment": self.split, "blocklimit": self.blocklimit}
+                "kvector": self.kvector, "sparse": self.sparse, "schema_change_after_segment": self.split, "blocklimit": self.blocklimit,
+                "after": self.after}
 
     def build(self):
         from whoosh import sorting
@@ -189,6 +198,12 @@ class Case(object):
             for k in self.deletes:
                 w.delete_by_term("id", k)
             w.commit(merge=False)
+        if self.after:
+            w = ix.writer(codec=W3Codec(blocklimit=self.blocklimit))
+            if self.after == "optimize":
+                w.commit(optimize=True)
+            else:
+                w.commit()
         self.ix = ix
         self.docs = dict((d["id"], d) for seg in self.segments for d in seg if d["id"] not in self.deletes)
         return ix
@@ -1018,7 +1033,11 @@ def run(ctx):
             ctx.count("c14.layout.mixed_columns")
         if case.nseg > 1 and case.deletes:
             ctx.count("c14.layout.multiseg_with_deletions")
-        sig = (case.colmode, case.nseg, bool(case.deletes))
+        if case.after:
+            ctx.count("c14.layout.rewritten_by_%s" % case.after)
+            if case.deletes:
+                ctx.count("c14.layout.rewritten_with_deletions")
+        sig = (case.colmode, case.nseg, bool(case.deletes), case.after)
         try:
             for qi in range(2):
                 q, qfn = gen_query(rng)
